@@ -649,7 +649,7 @@ fn worker_main(prop: Prop, tier: Tier, k: usize, dir: &Path, generation: usize) 
         std::env::var("E_C01_WALL")
             .ok()
             .and_then(|s| s.parse().ok())
-            .unwrap_or(tier.pick(30, 800)),
+            .unwrap_or(tier.pick(28, 800)),
     );
     let start = Instant::now();
     let shared = Shared::open(&dir.join("work"), 4096, false);
@@ -673,7 +673,13 @@ fn worker_main(prop: Prop, tier: Tier, k: usize, dir: &Path, generation: usize) 
                     break;
                 }
                 let depth = depth_of(prop, tier, prog.ops.len());
-                let e = run_choices(prop, item.cfg, prog, env, &prefix, depth, Some(&cur));
+                let mut e = run_choices(prop, item.cfg, prog, env, &prefix, depth, Some(&cur));
+                if e.fails.iter().any(|f| f.oracle == "machinery") {
+                    // a harness watchdog fired (an overloaded machine can stall a fresh pool
+                    // thread for seconds): the execution is repeated once before it counts
+                    agg.count("harness_watchdog_retries", 1);
+                    e = run_choices(prop, item.cfg, prog, env, &prefix, depth, Some(&cur));
+                }
                 if e.diverged {
                     agg.count("replay_divergences", 1);
                 }
